@@ -17,7 +17,7 @@ ID = "C20"
 LEVEL = "fault_enumeration"
 COLOURS = ['aqua', 'black', 'blue', 'fuchsia', 'gray', 'green', 'lime', 'maroon', 'navy', 'olive',
            'orange', 'purple', 'red', 'silver', 'teal', 'white', 'yellow']
-BAD_COLOURS = ["pink", "#ff0000", "", None, 7, "redd", "re d", "grey"]
+BAD_COLOURS = ["pink", "#ff0000", "", None, 7, "redd", "re d", "grey", ["red"], {"colour": "red"}, ["red", "blue"], 3.5, True]
 TIERS = {
     "quick": {"runs": 6000, "wall_cap": 100, "timeout": 60, "dups": 16},
     "thorough": {"runs": 120000, "wall_cap": 1500, "timeout": 60, "dups": 64},
@@ -35,7 +35,7 @@ ASSUMPTIONS = ["calls are atomic (no pre-emption inside a call); interleaving = 
                "capitalised colour names and lower-case residue keys are not generated (docstring and code disagree: ambiguity window)",
                "relative order of the space and the line break inside one gap is not asserted",
                "the default palette is whatever the pristine interpreter's aminoacids.DEFAULT_COLOR_PALETTE holds"]
-PROBES = ["same_dict_object_passed_again", "caller_mutates_its_dict_after_update", "reject_on_custom_palette", "reject_at_first_key", "reject_at_last_key", "render_len_gt_100",
+PROBES = ["palette_in_dict_subclass", "update_not_followed_by_render", "same_dict_object_passed_again", "caller_mutates_its_dict_after_update", "reject_on_custom_palette", "reject_at_first_key", "reject_at_last_key", "render_len_gt_100",
           "render_len_multiple_of_50", "new_object_after_foreign_update", "accept_with_extra_keys"]
 
 
@@ -84,6 +84,10 @@ def gen_plan(streams, tier):
                 op["then_mutate"] = [rnd.choice(list(AA)), rnd.choice(COLOURS + ["pink"])]
             if rnd.random() < 0.35:
                 op["same_dict"] = True          # the caller edits one dictionary object in place and passes it again
+            elif rnd.random() < 0.3:
+                op["container"] = rnd.choice(("OrderedDict", "defaultdict", "subclass"))
+            if rnd.random() < 0.4:
+                op["no_render_after"] = True    # several updates in a row with no render in between
             if rnd.random() < w_break:
                 op["pal"], op["j"], op["how"] = break_palette(rnd, pal, order)
             ops.append(op)
@@ -114,6 +118,14 @@ def corpus():
             {"k": "render", "o": 1}, {"k": "set", "o": 0, "pal": {a: "teal" for a in order if a != "C"}, "j": 1, "how": "missing", "same_dict": True},
             {"k": "set", "o": 1, "pal": blue, "same_dict": True}, {"k": "render", "o": 0}]
     out.append(("one_dict_object_edited_in_place", {"property": ID, "run_seed": 23, "objects": ["ACDEFGHIKLMNPQRSTVWY", "WYWYAC"], "ops": ops2}))
+    teal = {a: "teal" for a in order}
+    out.append(("two_updates_between_renders", {"property": ID, "run_seed": 24, "objects": ["ACDEFGHIKLMNPQRSTVWY"], "ops": [
+        {"k": "render", "o": 0}, {"k": "set", "o": 0, "pal": red, "no_render_after": True}, {"k": "set", "o": 0, "pal": blue, "no_render_after": True},
+        {"k": "render", "o": 0}, {"k": "set", "o": 0, "pal": teal, "no_render_after": True}, {"k": "set", "o": 0, "pal": dict(red, W=["red"]), "j": 18, "how": "colour", "no_render_after": True},
+        {"k": "set", "o": 0, "pal": red, "no_render_after": True}, {"k": "render", "o": 0}]}))
+    out.append(("valid_palette_in_dict_subclasses", {"property": ID, "run_seed": 25, "objects": ["ACDEFGHIKLMNPQRSTVWY"], "ops": [
+        {"k": "set", "o": 0, "pal": red, "container": "OrderedDict"}, {"k": "set", "o": 0, "pal": blue, "container": "defaultdict"},
+        {"k": "set", "o": 0, "pal": teal, "container": "subclass"}, {"k": "set", "o": 0, "pal": dict(red, Y={"colour": "red"}), "j": 19, "how": "colour"}, {"k": "render", "o": 0}]}))
     out.append(("block_boundaries", {"property": ID, "run_seed": 21,
                                      "objects": ["A" * n for n in (1, 9, 10, 11, 49, 50, 51, 99, 100, 101, 150, 151)],
                                      "ops": [{"k": "render", "o": i} for i in range(12)]}))
@@ -300,6 +312,15 @@ def execute(plan, ctx):
         valid = is_valid(pal)
         raised = None
         passed = dict(pal)
+        if op.get("container"):
+            import collections
+            if op["container"] == "OrderedDict":
+                passed = collections.OrderedDict(pal)
+            elif op["container"] == "defaultdict":
+                passed = collections.defaultdict(lambda: "pink", pal)
+            else:
+                passed = type("Palette", (dict,), {})(pal)
+            ctx.probe("palette_in_dict_subclass")
         if op.get("same_dict"):
             shared.clear()
             shared.update(pal)
@@ -339,7 +360,11 @@ def execute(plan, ctx):
             if raised is None:
                 raise Violation("invalid_palette_accepted", "set:invalid",
                                 "invalid dictionary (step %s, %s) was accepted" % (op.get("j"), op.get("how")))
-        # every live object must still render under *its* reference palette
+        # every live object must still render under *its* reference palette (unless the plan asks for
+        # several updates in a row without a render in between: rendering is itself a call that may touch caches)
+        if op.get("no_render_after"):
+            ctx.probe("update_not_followed_by_render")
+            continue
         for j in range(len(objs)):
             render_check(j, "after_set_ok" if valid else "after_rejected_set")
     for j in range(len(objs)):
